@@ -19,6 +19,7 @@ import (
 
 	mpb "github.com/vbauerster/mpb/v8"
 	"github.com/vbauerster/mpb/v8/decor"
+	"golang.org/x/sys/unix"
 
 	"verif/harness/internal/common"
 	"verif/harness/internal/stuck"
@@ -675,7 +676,7 @@ func (rr *runRec) doOp(client, idx int, op Op) {
 	var b *mpb.Bar
 	needsBar := true
 	switch op.K {
-	case "add", "write", "refresh", "rw", "cancel", "shutdown", "release", "waitcycles", "pwait":
+	case "add", "write", "refresh", "rw", "cancel", "shutdown", "release", "waitcycles", "pwait", "resize":
 		needsBar = false
 	}
 	if needsBar {
@@ -691,6 +692,16 @@ func (rr *runRec) doOp(client, idx int, op Op) {
 	switch op.K {
 	case "add":
 		res = rr.addBar(op.B)
+	case "resize":
+		// the user resizes the terminal window: N rows, B columns
+		res = "no-pty"
+		if rr.pty != nil {
+			if err := unix.IoctlSetWinsize(rr.pty.master, unix.TIOCSWINSZ, &unix.Winsize{Row: uint16(op.N), Col: uint16(op.B)}); err != nil {
+				res = err.Error()
+			} else {
+				res = "ok"
+			}
+		}
 	case "write":
 		buf := []byte(op.S)
 		var n int
